@@ -940,3 +940,45 @@ def rule_pickle_state(prog: Program, modules: Optional[Set[str]] = None) -> List
         if n_readers == 0:
             out.append(Instance("R-PICKLE", "geom:Geometry.__init__#GEOJSON-VARIANTS", INFO, "no reader on the rebuild path names GeoJSON members explicitly", init.where()))
     return out
+
+
+def rule_taskname(prog: Program, modules: Optional[Set[str]] = None) -> List[Instance]:
+    """NAMECOMPLETE: dask identifies a task by its key, and the graphs of array collections computed
+    together are merged key by key. A function that hand-builds the graph of a dask *array* and derives
+    the layer name from `tokenize(...)` promises "same name => same result": every parameter that flows
+    into the task definitions must reach the name. A parameter left out makes two calls that differ
+    only in it share keys, and one silently receives the other's blocks. A uuid-based name is always
+    unique and passes. (Bags handed to `delayed` are fused per collection before graphs merge, which
+    is why the rule is limited to array graphs - checked against the real code.)"""
+    out: List[Instance] = []
+    for fi in prog.all_functions(modules):
+        hlg = [n for n in walk_own(fi.node) if isinstance(n, ast.Call) and (dotted(n.func) or "").endswith("HighLevelGraph.from_collections") and len(n.args) >= 2]
+        arr = [n for n in walk_own(fi.node) if isinstance(n, ast.Call) and (dotted(n.func) or "").split(".")[-1] == "Array"]
+        if not hlg or not arr:
+            continue
+        org = Origins(fi)
+        params = [p for p in fi.param_names() if p not in ("self", "cls")]
+        name_e, graph_e = hlg[0].args[0], hlg[0].args[1]
+        cid = f"{fi.qual}#NAMECOMPLETE"
+        name_names = org.deps_names(name_e)
+        name_defs = [v for nm in name_names for _, v in org.defs.get(nm, [])] + [name_e]
+        calls = {call_name(c) for v in name_defs for c in ast.walk(v) if isinstance(c, ast.Call)}
+        if calls & {"uuid4", "uuid1", "token_hex"}:
+            out.append(Instance("R-CACHE", cid, OK, f"layer name `{short(name_e)}` carries a fresh unique id: keys cannot collide", fi.where(hlg[0])))
+            continue
+        if "tokenize" not in calls:
+            out.append(Instance("R-CACHE", cid, BAD, f"layer name `{short(name_e)}` is neither unique (uuid) nor derived from the inputs (tokenize): every call produces the same keys", fi.where(hlg[0])))
+            continue
+        covered = org.deps(name_e)
+        flows: Set[str] = set()
+        gname = graph_e.id if isinstance(graph_e, ast.Name) else None
+        for n in walk_own(fi.node):
+            if isinstance(n, ast.Assign) and isinstance(n.targets[0], ast.Subscript) and isinstance(n.targets[0].value, ast.Name) and n.targets[0].value.id == gname:
+                flows |= org.deps(n.value)
+        for nf in fi.nested.values():
+            pass
+        missing = sorted(p_ for p_ in flows - covered if p_ in params)
+        out.append(Instance("R-CACHE", cid, BAD if missing else OK,
+                            f"layer name `{short(name_e)}` is a token of {sorted(covered)} but the task definitions also depend on parameter(s) {missing}: two calls differing only there share task keys and, computed together, one receives the other's blocks" if missing
+                            else f"every parameter that reaches the task definitions reaches the layer name ({sorted(flows & set(params))})", fi.where(hlg[0])))
+    return out
